@@ -81,7 +81,46 @@ def gen_script_ops(rng, bias):
     return ";".join(ops)
 
 
+def gen_poll_sequence_case(rng):
+    """One live context driven through whole poll cycles with a chosen *class sequence* of results:
+    ok(S) -> error -> ok(S) (recovery to unchanged metadata), e1 -> e2 -> e1, ok -> same ok,
+    error -> ok(new), first-result error, and random mixes of these."""
+    lines = []
+    if rng.chance(1, 3):
+        lines.append(f"script {rng.below(4)} {gen_script_ops(rng, None)}")
+    h, iv = rng.below(3), rng.choice([1, 50, 100])
+    S = list(BASE)
+    S2 = list(BASE)
+    S2[rng.below(12)] += 1
+    pats = [["S", "E", "S"], ["S", "S", "E", "S"], ["E", "S", "E", "S"], ["E1", "E2", "E1"], ["S", "E1", "E2", "S"],
+            ["S", "S", "S"], ["E", "N"], ["S", "E", "N"], ["S", "E", "E", "S"], ["E", "E", "S", "S"], ["S", "N", "S"]]
+    pat = list(rng.choice(pats))
+    for _ in range(rng.range(0, 4)):
+        pat.append(rng.choice(["S", "S", "E", "E1", "E2", "N"]))
+    lines.append(f"start {h} {rng.below(4)} {rng.below(4)} {iv}")
+    first = True
+    for c in pat:
+        if not first:
+            lines += [f"advance {rng.choice([iv, iv, iv + 3, 2 * iv])}", "run"]
+        first = False
+        if c == "S":
+            lines.append("release 0 " + ",".join(map(str, S)))
+        elif c == "N":
+            lines.append("release 0 " + ",".join(map(str, S2)))
+        else:
+            lines.append(f"release {dict(E=-2, E1=-2, E2=-13)[c]}")
+        lines.append("run")
+        if rng.chance(1, 12):
+            lines.append(rng.choice([f"getpath {h}", f"start {h} 0 0 7", f"stop {(h + 1) % 3}", "advance 0"]))
+    if rng.chance(1, 2):
+        lines += [rng.choice([f"stop {h}", f"close {h}"]), "run"]
+    lines.append("end")
+    return lines
+
+
 def gen_poll_case(rng, nsteps, bias=None):
+    if bias != "restart" and rng.chance(1, 4):
+        return gen_poll_sequence_case(rng)
     lines = []
     for k in range(rng.range(0, 6)):
         if rng.chance(2, 3):
@@ -328,6 +367,8 @@ def poll_features(out):
             last = w[1:]
         if w[0] == "cb":
             f.add("cb-err" if w[3] != "0" else "cb-ok")
+            if w[3] == "0" and w[4][5:] == w[5][5:] and w[4][5:] != ZERO:
+                f.add("cb-recovery-same-stat")
         if w[0] == "op" and w[1] == "close" and inflight:
             f.add("close-in-flight")
     return f
